@@ -357,13 +357,28 @@ func (vc *VC) loopMods(li *loopInfo) {
 				}
 			case *ssa.Send:
 				li.modAll = true
+				if vc.isFifoChan(x.Chan) {
+					vc.fifoFn()
+					li.mods["#fifo.sendn"] = true
+				}
 			case *ssa.Select:
 				li.modAll = true
+				for _, s := range x.States {
+					if vc.isFifoChan(s.Chan) {
+						vc.fifoFn()
+						li.mods["#fifo.sendn"] = true
+						li.mods["#fifo.recvn"] = true
+					}
+				}
 			case *ssa.Go, *ssa.Defer, *ssa.RunDefers:
 				li.modAll = true
 			case *ssa.UnOp:
 				if x.Op == token.ARROW {
 					li.modAll = true
+					if vc.isFifoChan(x.X) {
+						vc.fifoFn()
+						li.mods["#fifo.recvn"] = true
+					}
 				}
 			case ssa.CallInstruction:
 				vc.callMods(x.Common(), li)
@@ -417,6 +432,15 @@ func (vc *VC) enterLoop(li *loopInfo, b *ssa.BasicBlock, preds []*ssa.BasicBlock
 	}
 	if li.modAll {
 		vc.havocAll(st)
+		// owned ghosts and channel sequence counters survive a general havoc: those the loop itself
+		// changes are havocked by name
+		for _, k := range sortedKeys(li.mods) {
+			if strings.HasPrefix(k, "#ghost.") || strings.HasPrefix(k, "#fifo.") {
+				if vc.heapElem[k] != nil {
+					vc.havocKey(st, k)
+				}
+			}
+		}
 	} else {
 		old := st.nextId
 		st.nextId = vc.freshConst("nextId", "Int")
@@ -1083,6 +1107,14 @@ func (vc *VC) unop(x *ssa.UnOp, st *State) {
 			vc.assumeNote("package-level error variables (Err*, io.EOF) are non-nil and pairwise distinct objects")
 			vc.assume(vc.guard(), not(eq(sx("ityp", tv.S), "0")))
 			vc.assume(vc.guard(), eq(tv.S, vc.errGlobalConst(g)))
+		}
+		// package-level pointer variables that only the package initialiser assigns, always with the
+		// result of a constructor that never returns nil (new object on every return path)
+		if g, ok := x.X.(*ssa.Global); ok && vc.fn != nil && !strings.HasPrefix(vc.fn.Name(), "init") {
+			if _, isPtr := t.Underlying().(*types.Pointer); isPtr && vc.prog.globalInitNonNil(g) {
+				vc.assumeNote("package-level pointer variables assigned only during package initialisation, with the result of a constructor that never returns nil, are non-nil (whole-module scan of stores on every run)")
+				vc.assume(vc.guard(), not(eq(tv.S, "lnil")))
+			}
 		}
 	case token.ARROW:
 		vc.recv(x, st)
